@@ -91,6 +91,11 @@ func c15Gen(tier string, seed int64) []fw.Case {
 		dd := d
 		cases = append(cases, fw.Case{Name: fmt.Sprintf("slow-pong/%s/%s", d.Role, d.Reader), Desc: dd, Run: func(r *fw.R) { c15SlowPong(r, dd) }})
 	}
+	for i := 0; i < tierPick(tier, 8, 60); i++ {
+		d := c15Desc{Kind: "pong-at-expiry", Seed: rng.U64(), Role: bothRoles[i%2], Params: allParams[rng.Intn(len(allParams))], Reader: []string{"CloseRead", "Read"}[i/2%2]}
+		dd := d
+		cases = append(cases, fw.Case{Name: fmt.Sprintf("pong-at-expiry/%s/%s", d.Role, d.Reader), Desc: dd, Run: func(r *fw.R) { c15PongAtExpiry(r, dd) }})
+	}
 	m := tierPick(tier, 200, 4000)
 	for i := 0; i < m; i++ {
 		d := c15Desc{Kind: "received", Seed: rng.U64()}
@@ -680,4 +685,81 @@ func c15SlowPong(r *fw.R, d c15Desc) {
 		return
 	}
 	r.Count("pings_completed_by_own_pong", 1)
+}
+
+// c15PongAtExpiry: on connection A the Pong arrives at the very moment the Ping's context ends (either outcome
+// is fine for that Ping); right afterwards a Ping on a fresh connection B, whose Pong is withheld, must fail -
+// whatever state the first Ping left behind must not complete somebody else's Ping.
+func c15PongAtExpiry(r *fw.R, d c15Desc) {
+	r.SetSample(d)
+	rng := fw.NewRand(d.Seed)
+	open := func(answer func(peer *RawPeer, f wire.Frame)) (*websocket.Conn, *xport.End, bool) {
+		c, _, peerEnd, err := libConn(d.Role, d.Params, 0, xport.Plan{}, xport.Plan{})
+		if err != nil {
+			r.Violate("C15/attach-failed", err.Error(), "")
+			return nil, nil, false
+		}
+		peer := newRawPeer(peerEnd, d.Role, d.Params, d.Seed)
+		peer.OnFrame = func(f wire.Frame) {
+			if f.Op == wire.OpPing && answer != nil {
+				answer(peer, f)
+			}
+		}
+		peer.Start()
+		ctx := context.Background()
+		if d.Reader == "CloseRead" {
+			c.CloseRead(ctx)
+		} else {
+			go func() {
+				for {
+					if _, _, err := c.Read(ctx); err != nil {
+						return
+					}
+				}
+			}()
+		}
+		return c, peerEnd, true
+	}
+	for it := 0; it < 60; it++ {
+		life := time.Duration(800+rng.Intn(1500)) * time.Microsecond
+		early := time.Duration(rng.Intn(400)) * time.Microsecond
+		a, aEnd, ok := open(func(peer *RawPeer, f wire.Frame) {
+			pl := append([]byte(nil), f.Payload...)
+			go func() {
+				time.Sleep(life - early)
+				peer.Send(wire.Pong(pl))
+			}()
+		})
+		if !ok {
+			return
+		}
+		actx, ac := context.WithTimeout(context.Background(), life)
+		aerr := a.Ping(actx)
+		ac()
+		r.Count("ping_calls", 1)
+		if aerr == nil {
+			r.Count("pongs_at_expiry_that_won", 1)
+		} else {
+			r.Count("pongs_at_expiry_that_lost", 1)
+		}
+		b, bEnd, ok := open(nil)
+		if !ok {
+			a.CloseNow()
+			aEnd.Close()
+			return
+		}
+		bctx, bc := context.WithTimeout(context.Background(), 15*time.Millisecond)
+		berr := b.Ping(bctx)
+		bc()
+		r.Count("ping_calls", 1)
+		a.CloseNow()
+		aEnd.Close()
+		b.CloseNow()
+		bEnd.Close()
+		if berr == nil {
+			r.Violate("C15/ping-completed-without-own-pong/after-pong-at-expiry", fmt.Sprintf("%s %s reader=%s iteration %d: a Ping on a fresh connection whose peer never sent a Pong returned nil (the Ping before it, on another connection, had its Pong arrive as its context ended: %v)", d.Role, paramsKey(d.Params), d.Reader, it, aerr), "")
+			return
+		}
+	}
+	r.Key("pong-at-expiry/%s/%s/%s", d.Role, d.Reader, paramsKey(d.Params))
 }
